@@ -455,12 +455,52 @@ def _dump(path, d):
         json.dump(d, f, indent=1)
 
 
-def _write_txt(path, arr, commas):
-    with open(path, "w", encoding="utf-8") as f:
-        if commas:
-            f.write(",\n".join(str(int(x)) for x in arr) + "\n")
-        else:
-            f.write(" ".join(str(int(x)) for x in arr))
+# layouts of a text array file, all accepted by the documented reader (numbers separated by blanks, commas or line
+# ends; the repository's own tests/test_json_files/*/env.txt use rows, commas, CRLF and a blank line between layers)
+TXT_LAYOUTS = ["one-line", "one-per-line-commas", "one-per-line", "rows", "rows-blank-line-between-blocks",
+               "leading-blank-lines", "trailing-blank-lines", "no-final-newline", "crlf-commas-blocks-like-the-tests",
+               "tabs-and-blank-lines-with-spaces"]
+
+
+def _txt_layout(ext):
+    """'txt' -> 0, 'txtc' -> 1, 'txtL<k>' -> k"""
+    if ext == "txt":
+        return 0
+    if ext == "txtc":
+        return 1
+    return int(ext[4:])
+
+
+def _write_txt(path, arr, layout=0, row=3, block=6):
+    vals = [str(int(x)) for x in arr]
+    rows = [vals[i:i + row] for i in range(0, len(vals), row)]
+    per_block = max(1, block // row)
+    blocks = [rows[i:i + per_block] for i in range(0, len(rows), per_block)]
+    name = TXT_LAYOUTS[layout]
+    if name == "one-line":
+        txt = " ".join(vals)
+    elif name == "one-per-line-commas":
+        txt = ",\n".join(vals) + "\n"
+    elif name == "one-per-line":
+        txt = "\n".join(vals) + "\n"
+    elif name == "rows":
+        txt = "\n".join(" ".join(r) for r in rows) + "\n"
+    elif name == "rows-blank-line-between-blocks":
+        txt = "\n\n".join("\n".join(" ".join(r) for r in bl) for bl in blocks) + "\n"
+    elif name == "leading-blank-lines":
+        txt = "\n\n" + "\n".join(" ".join(r) for r in rows) + "\n"
+    elif name == "trailing-blank-lines":
+        txt = "\n".join(" ".join(r) for r in rows) + "\n\n\n"
+    elif name == "no-final-newline":
+        txt = "\n".join(" ".join(r) for r in rows)
+    elif name == "crlf-commas-blocks-like-the-tests":
+        txt = ",\r\n\r\n".join(",\r\n".join(",".join(r) for r in bl) for bl in blocks)
+    elif name == "tabs-and-blank-lines-with-spaces":
+        txt = "\n  \n".join("\n".join("\t".join(r) + "  " for r in bl) for bl in blocks) + "\n"
+    else:
+        raise ValueError(layout)
+    with open(path, "w", encoding="utf-8", newline="") as f:
+        f.write(txt)
 
 
 def _strip_inherited(d, parent_units, children):
@@ -501,7 +541,8 @@ def _write_system_layout(cx, d, root, ext, strip):
             np.save(os.path.join(sysdir, "sp", "env.npy"), np.array(space["cell_env"], dtype=int))
             space["cell_env"] = "env.npy"
         else:
-            _write_txt(os.path.join(sysdir, "sp", "env.txt"), space["cell_env"], commas=False)
+            _write_txt(os.path.join(sysdir, "sp", "env.txt"), space["cell_env"], 0 if ext == "txt" else _txt_layout(ext),
+                       row=int(space["w"]), block=int(space["w"]) * int(space["h"]))
             space["cell_env"] = "env.txt"
         cx.count("external_cell_env_files")
     _dump(os.path.join(sysdir, "net", "network.json"), net)
@@ -513,7 +554,9 @@ def _write_system_layout(cx, d, root, ext, strip):
         np.save(os.path.join(sysdir, "chem.npy"), np.array(d["chemostats"], dtype=int))
         top["chemostats"] = "chem.npy"
     else:
-        _write_txt(os.path.join(sysdir, "chem.txt"), d["chemostats"], commas=True)
+        nsp = max(1, len(net["species"]))
+        _write_txt(os.path.join(sysdir, "chem.txt"), d["chemostats"], 1 if ext == "txt" else _txt_layout(ext),
+                   row=max(1, len(d["chemostats"]) // nsp // 2), block=len(d["chemostats"]) // nsp)
         top["chemostats"] = "chem.txt"
     _dump(os.path.join(sysdir, "system.json"), top)
     cx.count("files_written", 5)
@@ -611,7 +654,8 @@ def _rt_space_external(cx, obj, route, tmp, out):
         np.save(os.path.join(root, "sp", "env.npy"), np.array(d["cell_env"], dtype=int))
         d["cell_env"] = "env.npy"
     else:
-        _write_txt(os.path.join(root, "sp", "env.txt"), d["cell_env"], commas=(ext == "txtc"))
+        _write_txt(os.path.join(root, "sp", "env.txt"), d["cell_env"], _txt_layout(ext), row=int(d["w"]),
+                   block=int(d["w"]) * int(d["h"]))
         d["cell_env"] = "env.txt"
     _dump(os.path.join(root, "sp", "space.json"), d)
     cx.count("files_written", 2)
@@ -1576,6 +1620,19 @@ def _spaces(tier, seed):
                                    "spec": grid_spec(shape, 1, 3, 1, bci, u)}
     sp.append(("grid files with an external cell_env array: 3 shapes x 3 unit systems x 2 boundary sets x {.npy, .txt blanks, .txt commas} x {absolute, relative path}",
                gen_grid_ext, 3 * 3 * 2 * 3 * 2, 30))
+
+    def gen_txt_layouts():
+        for k in range(len(TXT_LAYOUTS)):
+            for how in ("abs", "rel"):
+                for u in (0, 2):
+                    for shape in (1, 2, 3):
+                        yield {"sub": "rt", "kind": "rdspace", "route": "ext:txtL%d:%s" % (k, how),
+                               "spec": grid_spec(shape, 1, 3, 1, 0, u)}
+                    for shp, us in (((1, 1, 1, 1), (u, 1, u, 2)), ((1, 0, 2, 0), (1, u, 2, u))):
+                        yield {"sub": "rt", "kind": "rdsystem", "route": "multi:txtL%d:%s:keep" % (k, how),
+                               "spec": system_spec(*shp, *us)}
+    sp.append(("text array files: %d layouts the reader accepts (one line, one value per line with / without commas, rows, blank line between z layers / between species blocks, leading / trailing blank lines, no final newline, CRLF + commas as in tests/test_json_files, tabs) x {cell_env of 3 grid files, cell_env + chemostats of 2 multi-file systems} x 2 unit-system choices x {absolute, relative path}; state / t_sample / data files can only be .npy (unitarray_from_dict)"
+               % len(TXT_LAYOUTS), gen_txt_layouts, len(TXT_LAYOUTS) * 2 * 2 * 5, 25))
 
     def gen_graphs():
         for shape in range(4):
